@@ -246,7 +246,18 @@ theorem step_meets_spec (c : Codec) (limit : Nat) (sp : SpecSt) (n : Node) (t : 
   | recv p ts => exact step_recv c limit sp n t p ts (by simpa [Op.peerOk] using hp) hr
   | crashStart now => exact step_crashStart c limit sp n t now (ht now rfl) hr
 
-/-- **model_trace_meets_spec** (the whole property on the model).  For every payload encoding, every rotation
+/-
+  FULL STATEMENT (false of the unchanged code, F-C12c): the model's trace satisfies the WHOLE specification, i.e.
+  `specTrace … = none` AND `confirmTrace … = none` (clause confirmation_not_beyond_received).  The second half fails:
+  ReplayLog queues `log::SetLogPosition` with its own file's name although nothing was received from the peer
+  (`confirmation_counterexample`), and between two nodes that loses logged events (`premature_confirmation_counterexample`).
+  What holds is every other clause (`model_trace_meets_spec_partial`: all of `specTrace`), and the clause itself for the
+  timer's confirmations (`timer_confirmation_sound`).  Precisely: the node's own guarantees are relative to its recorded
+  local position; "all logged events reach the peer" follows only under the extra hypothesis that this position was never
+  raised by a SetLogPosition the peer queued inside ITS ReplayLog — the acknowledgements `Op.ack` of the trace are inputs.
+-/
+
+/-- **model_trace_meets_spec_partial** (the whole property on the model, except confirmation_not_beyond_received).  For every payload encoding, every rotation
     threshold, every configuration (which of the two zone members is master, the three log_durations), and every
     finite sequence of events (any security object), connects, disconnects, ReplayLog runs, rotations, clean-up
     timer runs, log-position acknowledgements, incoming messages and crash-restarts of the sender, under a virtual
@@ -257,7 +268,7 @@ theorem step_meets_spec (c : Codec) (limit : Nat) (sp : SpecSt) (n : Node) (t : 
     the receiver filter and the acknowledgement are exact.
     (Crash points that cut `current` inside a frame are covered per file by `truncation_tolerant`/`damage_tolerant`;
     equal timestamps are excluded by the clock hypothesis, see `replay_exact_counterexample`.) -/
-theorem model_trace_meets_spec (c : Codec) (limit : Nat) (t0 : Int) (h0 : 0 < t0) (pf : Bool) (dA dB dC : Int)
+theorem model_trace_meets_spec_partial (c : Codec) (limit : Nat) (t0 : Int) (h0 : 0 < t0) (pf : Bool) (dA dB dC : Int)
     (ops : List Op) (hc : ClockOK t0 ops) :
     specTrace (specInit [dA, dB, dC]) (runModel c limit (initNode t0 pf dA dB dC) ops) 0 = none := by
   suffices h : ∀ (ops : List Op) (sp : SpecSt) (n : Node) (t : Int) (i : Nat), Rel c sp n t → ClockOK t ops →
@@ -278,6 +289,52 @@ theorem model_trace_meets_spec (c : Codec) (limit : Nat) (t0 : Int) (h0 : 0 < t0
     cases hnow : op.time with
     | none => rw [hnow] at hck; exact hck
     | some now => rw [hnow] at hck; exact hck.2
+
+/-- **timer_confirmation_sound.**  The confirmations the clean-up timer queues carry exactly the remote position
+    (apilistener.cpp:993-1001): on related states the clause confirmation_not_beyond_received holds for the timer step. -/
+theorem timer_confirmation_sound (c : Codec) (limit : Nat) (sp : SpecSt) (n : Node) (t now : Int) (h : Rel c sp n t) :
+    ∀ st ∈ (stepOp c limit n (.timer now)).2, confirmStep sp st = none := by
+  intro st hst
+  simp only [stepOp, List.mem_singleton] at hst
+  subst hst
+  simp only [confirmStep, Node.peerList, List.map_cons, List.map_nil]
+  rw [if_neg]
+  simp only [List.any_cons, List.any_nil, Bool.or_false, Bool.or_eq_true, not_or]
+  have hr : ∀ p, p < 3 → rpos sp.pos p = (n.peers p).rpos := fun p hp => by rw [h.pos, rpos_pos n p hp]
+  refine ⟨?_, ?_, ?_⟩
+  · rw [hr 0 (by omega)]
+    by_cases hc : ((n.peers 0).connected && (n.peers 0).rpos != 0) = true <;> simp [timerSetPos, hc, setPosValues]
+  · rw [hr 1 (by omega)]
+    by_cases hc : ((n.peers 1).connected && (n.peers 1).rpos != 0) = true <;> simp [timerSetPos, hc, setPosValues]
+  · rw [hr 2 (by omega)]
+    by_cases hc : ((n.peers 2).connected && (n.peers 2).rpos != 0) = true <;> simp [timerSetPos, hc, setPosValues]
+
+/-- **confirmation_counterexample.**  One logged event, nothing ever received from peer A (remote position 0):
+    the model's ReplayLog queues SetLogPosition 1000002 s — the name of the file it replays — and the clause
+    confirmation_not_beyond_received rejects that step. -/
+theorem confirmation_counterexample :
+    let e : Entry := ⟨1000000000001, 101, none⟩
+    let out := (replayEntries (fun _ => true) ⟨0, 0, [], 0⟩ [(1000002, e)]).out
+    out = [.msg e, .setPos 1000002000000] ∧
+    confirmStep { (specInit [-1, -1, -1]) with cur := [⟨e, 140, true⟩] } ⟨.replay 1000001000000 0 (outObs out) none, [0, 0, 0, 0, 0, 0]⟩
+      = some .replayFileName := by decide
+
+/-- **premature_confirmation_counterexample** (two nodes, F-C12c).  While the link was down X logged event 101
+    and Y logged 201 and 202; nothing is confirmed on either side.  X replays first; Y handles X's queue (the event,
+    then X's in-replay SetLogPosition) before its own ReplayLog starts: Y then replays NOTHING — now and, because
+    positions only grow, after every later reconnect — so 201 and 202 never reach X, although Y would have delivered
+    both had its ReplayLog run first. -/
+theorem premature_confirmation_counterexample :
+    let vis : Nat → Bool := fun _ => true
+    let x : PNode := ⟨[(1000002, ⟨1000000000001, 101, none⟩)], 0, 0⟩
+    let y : PNode := ⟨[(1000002, ⟨1000000500000, 201, none⟩), (1000002, ⟨1000000700000, 202, none⟩)], 0, 0⟩
+    let y' := (x.replayOut vis).foldl PNode.handle y
+    -- both of Y's events are logged and unconfirmed
+    (y.view.all (fun r => decide (r.2.ts > y.lpos)) = true) ∧
+    -- had Y replayed first, X would have processed both
+    (x.accepted (y.replayOut vis) = [⟨1000000500000, 201, none⟩, ⟨1000000700000, 202, none⟩]) ∧
+    -- X's queue handled first: Y's position for X is X's file name, and Y replays nothing
+    (y'.lpos = 1000002000000) ∧ (msgsOf (y'.replayOut vis) = []) ∧ (x.accepted (y'.replayOut vis) = []) := by decide
 
 /-- The hypotheses are satisfiable on a non-trivial history: two events while A is away, a rotation, a clean-up,
     A reconnects and is replayed to, acknowledges, the sender crashes and restarts, B reconnects. -/
@@ -310,5 +367,10 @@ example : (specStep { (specInit [-1, -1, -1]) with pos := [0, 10, 0, 0, 0, 0] } 
 
 example : (specStep { (specInit [-1, -1, -1]) with pos := [0, 10, 0, 0, 0, 0] } ⟨.recv 0 10 true, [0, 10, 0, 0, 0, 0]⟩).1
     = none := by decide
+
+/-- The confirmation clause is not vacuous in the other direction either: a confirmation that equals the received
+    position passes, one from the timer beyond it is `other`. -/
+example : confirmStep { (specInit [-1, -1, -1]) with pos := [0, 10, 0, 0, 0, 0] } ⟨.timer 20 [] [[.l 10], [], []], [0, 10, 0, 0, 0, 0]⟩ = none := by decide
+example : confirmStep { (specInit [-1, -1, -1]) with pos := [0, 10, 0, 0, 0, 0] } ⟨.timer 20 [] [[.l 11], [], []], [0, 10, 0, 0, 0, 0]⟩ = some .other := by decide
 
 end Icinga.C12
